@@ -210,8 +210,21 @@ def rng_seed(seed):
 # --------------------------------------------------------------------------
 
 def global_state_snapshot():
+    import warnings
     po = np.get_printoptions()
-    return {
+    snap = {
         'geterr': dict(np.geterr()),
         'printoptions': {k: repr(v) for k, v in sorted(po.items())},
+        # the interpreter-wide warning filter list (a filter installed outside
+        # warnings.catch_warnings() changes what later calls report / raise)
+        'warning_filters': [
+            (f[0], getattr(f[1], 'pattern', None), f[2].__name__,
+             getattr(f[3], 'pattern', None), f[4]) for f in warnings.filters],
     }
+    try:
+        import sklearn
+        snap['sklearn_config'] = {k: repr(v) for k, v in
+                                  sorted(sklearn.get_config().items())}
+    except Exception:   # noqa
+        pass
+    return snap
